@@ -49,9 +49,23 @@ def run_session_states(P):
     if len(kernel_loops) != 1:
         raise CheckError('C07.2: expected exactly one kernel next_event loop in run_session, found %d' % len(kernel_loops))
     kh, kbody = kernel_loops[0]
+    # the flag that correlates "a terminal frame was already emitted" with "do not enter the kernel
+    # loop": by name while it keeps it, otherwise the only named bool local of run_session that is
+    # assigned nothing but constants, both true and false
     flag = [i for i, l in enumerate(rs.locals) if l.get('n') == 'skip_runtime_loop']
     if len(flag) != 1:
-        raise CheckError('C07.2: local `skip_runtime_loop` not found in run_session')
+        flag = []
+        for i, l in enumerate(rs.locals):
+            if not l.get('n') or l['ty'] != 'bool' or i <= rs.argc:
+                continue
+            ks = []
+            for (bi, si, kind, payload, ln) in rs.defs(i):
+                k = op_const(payload['a'][0]) if kind == 'rv' and payload['k'] == 'use' else None
+                ks.append(k.get('v') if k is not None and isinstance(k.get('v'), bool) else None)
+            if ks and None not in ks and True in ks and False in ks:
+                flag.append(i)
+    if len(flag) != 1:
+        raise CheckError('C07.2: the skip-the-kernel-loop flag of run_session was not identified (%d candidate bool locals assigned only constants)' % len(flag))
     flag = flag[0]
     sets = {}
     for (bi, si, kind, payload, ln) in rs.defs(flag):
@@ -170,7 +184,7 @@ def run(ctx):
             src = rs.origin(on)
             if src[0] == 'rv' and src[1]['k'] == 'discr':
                 l = src[1]['pl']['l']
-                if rs.lname(l) == 'continuity_run' and 'p' not in src[1]['pl']:
+                if (rs.lname(l) == 'continuity_run' or re.search(r'Option<.*ContinuityRun', rs.lty(l))) and 'p' not in src[1]['pl']:
                     some = ts.get('1')
                     for tgt in set(list(ts.values()) + [els]):
                         if tgt != some:
